@@ -497,7 +497,11 @@ def gen_registry(r):
                                              ("degC", "temperature", 1.0, -273.15),
                                              ("ft", "length", 0.3048, 0.0), ("hr", "time", 3600.0, 0.0)])
         e = {"k": "add", "sym": sym, "scale": scale_, "dims": dims_, "offset": off_, "prefixable": False}
-        if off_ != 0.0 and r.random() < 0.6:
+        v = r.random()
+        if v < 0.3:
+            # the same numbers, ANOTHER dimension (an angle declared dimensionless, a time declared a length)
+            e["dims"] = "dimensionless" if dims_ in ("angle", "temperature") else r.choice(["dimensionless", "mass"])
+        elif off_ != 0.0 and v < 0.7:
             e["offset"] = r.choice([0.0, off_ + 1.0])
         else:
             e["prefixable"] = True
